@@ -18,10 +18,16 @@ Pick(keys, status) ==
 Skipped(method, status) == method = "HEAD" \/ status \in {301, 304, 307, 308}
 
 (* part 1: which entry is checked.  Entry k accepts exactly the bodies carrying property "e"+k. *)
+(* Variants ("pv"): "xb" = ExcludeResponseBody (the marker body is not looked at: any picked entry accepts; a status   *)
+(* without definition is still refused under strict status); "reqhdr" = every entry also requires a header the response  *)
+(* does not carry (a checked response is rejected whatever entry is picked; an exempt one -- HEAD, 301/304/307/308 -- and *)
+(* a status without definition are not).                                                                                 *)
 PickAccepts(c) ==
    IF Skipped(c.method, c.status) THEN TRUE
-   ELSE LET p == Pick({c.keys[i] : i \in DOMAIN c.keys}, c.status) IN
-        IF p = "none" THEN ~c.includeStatus ELSE c.bodyKey = p
+   ELSE LET p == Pick({c.keys[i] : i \in DOMAIN c.keys}, c.status)
+            pv == IF "pv" \in DOMAIN c THEN c.pv ELSE "plain" IN
+        IF p = "none" THEN ~c.includeStatus
+        ELSE CASE pv = "xb" -> TRUE [] pv = "reqhdr" -> FALSE [] OTHER -> c.bodyKey = p
 
 (* part 2: the selected definition.  Header X-A declared as hd, carrying text hv. *)
 TInt == [type |-> "integer"]
